@@ -970,6 +970,23 @@ def analyse(ctx, i, found, exprs, cases, fq_exprs, fq_cases):
             ctx.count('float longest-path oracle', 'explicit enumeration')
         except TooBig:
             ctx.count('float longest-path oracle', 'skipped (too many paths)')
+        # float results do not depend on the topological order either
+        # (C17_timing_order_independent_ordered): re-run under a seeded worklist order
+        if os.environ.get('PYRTL_VERIF') == '1':
+            os.environ['PYRTL_VERIF_ITER_SEED'] = 'f%d-%s' % (i, label[0])
+            try:
+                if label == 'default table':
+                    tf2 = TimingAnalysis(**bk)
+                else:
+                    tf2 = TimingAnalysis(gate_delay_funcs={
+                        ch: ((lambda mem, a=a, b=b: a + b * mem.id) if ch == 'm'
+                             else (lambda width, a=a, b=b: a + b * width))
+                        for ch, (a, b) in utab.items()}, **bk)
+            finally:
+                del os.environ['PYRTL_VERIF_ITER_SEED']
+            if not all(tf2.timing_map.get(w) == tf.timing_map.get(w) for w in dump.wires):
+                viol('timing:order-dependent', '%s: the float timing_map depends on the topological order used'
+                     % label, {'table': label, 'custom_float_table(op:(a,b) => a+b*width)': utab})
         fmax = tf.max_length()
         if not (fmax == max(tf.timing_map.values())):
             viol('max_length', '%s: max_length() is not the largest timing_map value' % label, {})
@@ -1046,7 +1063,23 @@ def run(ctx, only=None):
     n = 100 if ctx.tier == 'quick' else 1500
     found, exprs, cases, fq_exprs, fq_cases = {}, [], [], [], []
     for i in (only if only is not None else range(n)):
-        analyse(ctx, i, found, exprs, cases, fq_exprs, fq_cases)
+        marks = (len(exprs), len(cases), len(fq_exprs), len(fq_cases))
+        try:
+            analyse(ctx, i, found, exprs, cases, fq_exprs, fq_cases)
+        except Exception as e:   # one bad case must not abort the run (nor desynchronise the queues)
+            del exprs[marks[0]:], cases[marks[1]:], fq_exprs[marks[2]:], fq_cases[marks[3]:]
+            import traceback
+            tb = traceback.format_exc()[-1500:]
+            ctx.count('cases that raised', type(e).__name__)
+            if isinstance(e, (pyrtl.PyrtlError, pyrtl.PyrtlInternalError, KeyError, ValueError, TypeError,
+                              ZeroDivisionError, RecursionError)) and 'pyrtl/' in tb.replace('\\', '/'):
+                sig = 'analysis-raises:%s' % type(e).__name__
+                if sig not in found:
+                    found[sig] = (0, 'an analysis entry point raised %s: %s on an API-built design (case %d)'
+                                  % (type(e).__name__, e, i), {'seed': ctx.seed, 'case': i, 'tier': ctx.tier,
+                                                                'traceback': tb})
+            else:
+                ctx.model_mismatch('harness error in case %d: %s' % (i, tb), {'seed': ctx.seed, 'case': i})
     for sig, (size, what, rep) in sorted(found.items()):
         ctx.spec_violation(sig, what, rep)
 
